@@ -11,7 +11,9 @@
     Part 2: one reader program per decoder, faithful to the Go control flow
     including the panic sites and the length-prefixed allocations:
       pkg/tools/lcp.go   ParsePolicy, ParsePolicyData
-      pkg/tools/acm.go   LookupACMSize, ACM.ParseACMInfo
+      pkg/tools/acm.go   LookupACMSize, ACM.ParseACMInfo (the width of the
+                         products in its allocation guards is a parameter:
+                         [acm_info] = [acm_info_w 64])
       pkg/tools/txt.go   ParseTXTRegs, ParseBIOSDataRegion, ReadACMStatus,
                          ReadACMPolicyStatusRaw, ReadBootStatusRaw
       pkg/registers      Read* (16 functions), ReadTXTRegisters, ValueFromBytes,
@@ -368,22 +370,36 @@ Definition lookup_acm_size (fx : fixes) (header : list Z) : rd (list Z) :=
     seek (firstn 32 header) 24 ;;; v <- read_le 4 ;; ret [wrap32 (v * 4)]
   else if fx_bounds fx then fail E_FIX else panic.
 
+(** [uintW(a) * uintW(b)]: the product as the machine computes it in [w]-bit
+    unsigned arithmetic.  The guards in front of the two [make] calls of
+    ParseACMInfo are written [uint64(Count)*uint64(binary.Size(T{})) >
+    uint64(buf.Len())]: the width of the product is part of the model, because
+    the guard bounds the allocation only when the product cannot wrap (a 32-bit
+    count times a 16- or 24-byte entry needs 37 bits). *)
+Definition mul_w (w a b : Z) : Z := (a * b) mod 2 ^ w.
+
 (** ACM.ParseACMInfo: [user] = Header.UserArea (the reader starts there),
     [total] = the Size*4 bytes Header.Write produced; the two ID lists are
-    checked against the bytes left in the module before make() (9c860bb) *)
-Definition acm_info (fx : fixes) (total : list Z) : rd (list Z) :=
+    checked against the bytes left in the module before make() (9c860bb).
+    [pw] = width in bits of the products [Count * entry size] inside the two
+    guards: 64 in the code ([acm_info]).  [make] and binary.Read compute their
+    own sizes in Go's [int] (64 bits), never below the 37 bits the product needs. *)
+Definition acm_info_w (pw : Z) (fx : fixes) (total : list Z) : rd (list Z) :=
   info <- read_n 48 ;;
   let cs := le_val (firstn 4 (skipn 20 info)) in
   let ps := le_val (firstn 4 (skipn 40 info)) in
   let ts := le_val (firstn 4 (skipn 44 info)) in
   alloc (lenZ total) 1 ;;;
   seek total cs ;;; c1 <- read_le 4 ;;
-  cap_guard fx (c1 * 16) ;;; alloc c1 16 ;;; l1 <- read_slice (c1 * 16) ;;
+  cap_guard fx (mul_w pw c1 16) ;;; alloc c1 16 ;;; l1 <- read_slice (c1 * 16) ;;
   seek total ps ;;; c2 <- read_le 4 ;;
-  cap_guard fx (c2 * 24) ;;; alloc c2 24 ;;; l2 <- read_slice (c2 * 24) ;;
+  cap_guard fx (mul_w pw c2 24) ;;; alloc c2 24 ;;; l2 <- read_slice (c2 * 24) ;;
   seek total ts ;;; caps <- read_le 4 ;; c3 <- read_le 2 ;;
   alloc c3 2 ;;; l3 <- read_slice (c3 * 2) ;;
   ret ([cs; ps; ts; c1] ++ l1 ++ [c2] ++ l2 ++ [caps; c3] ++ l3).
+
+(** the code as it is: uint64 products *)
+Definition acm_info : fixes -> list Z -> rd (list Z) := acm_info_w 64.
 
 (** ** pkg/tools/txt.go *)
 
